@@ -318,8 +318,13 @@ PROPS = {
                  "cancel at every listed instant) with open/close counters and goroutine counts. The constructors of lib/rsocks themselves (the files the "
                  "virtual network replaces): which error returns close the descriptor is extracted from the source on every run and the constructor model "
                  "leaks for no failure placement (rsocks_ctors_no_leak, ctor_leak_of_unclosed for the converse); the real constructors are called in a "
-                 "child process built without the verif tag, on lo and on a non-existent interface, with exact descriptor accounting.",
-        "props": ["C19"],
+                 "child process built without the verif tag, on lo and on a non-existent interface, with exact descriptor accounting."
+                 " On the regenerated code (C19Code): the six socket-opening functions themselves — catchARPReply, sendARPPing, server.Run, sendUnicast, sendMessage/sendSocket, "
+                 "catchReply — translated from the source on every run with their closes kept (explicit Close, defer Close, and the closer-goroutine idiom bound to a context the "
+                 "function cancels on return become the environment operation SockClose after the rest of the body), run in a world that counts constructions and closes and lets "
+                 "the outside do anything (constructor fails, any read/write fails, any wait ends either way, any number of rounds): whenever the call returns, opened = closed and "
+                 "at most one socket was opened; sendSocket hands out exactly one open socket iff it reports no error.",
+        "props": ["C19", "C19Code"],
         "streams": [{"test": "TestResFaults", "names": ["resfaults"], "timeout": 300}, {"test": "TestHookShutdown", "names": ["hook"], "timeout": 120},
                     {"test": "TestRsocksReal", "names": ["rsocksreal"], "timeout": 120}],
         "rule": "functions {arpping.Ping, dclient.sendMessage (broadcast and the unicast renewal path), dclient.catchReply, server.Run+handlers, the hook runner with three real scripts incl. SIGTERM-ignoring ones} x answers x {no fault, n-th socket creation fails "
@@ -330,9 +335,10 @@ PROPS = {
                     "factgen's discipline classifier (syntactic shape of open / defer Close / closer goroutine per function) and constructor classifier "
                     "(syscall.Close(fd) before each error return after syscall.Socket)",
                     "the kernel's AF_PACKET bind failing with ENODEV for an interface index that does not exist (the only set-up failure the probe can provoke)"],
-        "partial": "Partial: real file descriptors, the runtime poller and timer leaks (time.After) are not exhibited; the theorems are about "
-                   "discipline skeletons, tied to the code by the extracted facts and the fault enumeration.",
-        "technique": "Lean 4 theorems over discipline skeletons + source facts regenerated per run + fault enumeration of the real functions",
+        "partial": "Partial: the runtime poller, timer leaks (time.After) and goroutine scheduling are not exhibited; in the translation a closer goroutine is "
+                   "represented by the close it performs when the function returns (its early close on cancellation of the parent context shows as a failing read), "
+                   "and a Go panic skips the close where Go would still run deferred calls (C10: the functions do not panic).",
+        "technique": "Lean 4 theorems over the six socket-opening functions as translated from the Go source on every run (C19Code) and over discipline skeletons + source facts regenerated per run + fault enumeration of the real functions",
     },
     "C20": {
         "level": "For any number of writers, any scheduler, a failure at any step and kills anywhere, the target is always the complete previous file or one "
